@@ -1,6 +1,11 @@
 (* C25: concrete syntax of the case line (harness/h_c25.cpp): a session history (coq/Sess/Wire.v) extended by
      CONC [y=<seed>] [tick=<n>] <prog> <prog> ...        prog = call ('+' call)* | '-'
-                                                         call = S:<msgspec> | B:<msgspec>(;<msgspec>)*
+        call = S:<msgspec>                send(Message*, destroy = true, custom, no_increment)
+             | P:<msgspec>                send(Message*, destroy = false, custom, no_increment)
+             | R:<msgspec>                send(Message&, custom, no_increment)          (the by-reference overload)
+             | B:<msgspec>(;<msgspec>)*   send_batch(vector, destroy = true)
+             | C:<msgspec>(;<msgspec>)*   send_batch(vector, destroy = false)
+        (destroy only decides who deletes the message: S/P and B/C are the same call for the model)
    and of the result line (steps separated by " | ").  No proofs in this file. *)
 From Coq Require Import NArith ZArith List Bool.
 From F8 Require Import Sess.Bytes Sess.Msg Sess.Persist Sess.Session Sess.Wire.
@@ -19,6 +24,7 @@ Definition fwords (l : bytes) : list bytes := filter (fun t => match t with [] =
 
 Inductive cspec :=
 | SSend (sp : msgspec)
+| SRef (sp : msgspec)
 | SBatch (l : list msgspec)
 | SBad.                                  (* not "S:.." / "B:..": the harness throws std::invalid_argument *)
 
@@ -40,7 +46,10 @@ Fixpoint has_prefix (p l : bytes) : bool :=
 Definition parse_call (t : bytes) : cspec :=
   match t with
   | 83 :: 58 :: rest => SSend (parse_spec rest)                        (* S: *)
-  | 66 :: 58 :: rest => SBatch (map parse_spec (fsplit 59 rest))     (* B: *)
+  | 80 :: 58 :: rest => SSend (parse_spec rest)                        (* P: *)
+  | 82 :: 58 :: rest => SRef (parse_spec rest)                         (* R: *)
+  | 66 :: 58 :: rest => SBatch (map parse_spec (fsplit 59 rest))       (* B: *)
+  | 67 :: 58 :: rest => SBatch (map parse_spec (fsplit 59 rest))       (* C: *)
   | _ => SBad
   end.
 
